@@ -24,10 +24,11 @@ const (
 	stSized        // exact size, compact, NaN garbage contents
 	stView         // exact size, view with stride > cols into a sentinel-filled parent, NaN garbage in the window
 	stWrong        // sized with the wrong shape: the call must panic and leave it unchanged
+	stRowView      // VecDense only: unit-increment view (a RowView) inside a sentinel parent, NaN garbage in the window
 	nStates
 )
 
-var stateNames = [...]string{"zero", "reset", "sized", "view", "wrong"}
+var stateNames = [...]string{"zero", "reset", "sized", "view", "wrong", "rowview"}
 
 // receiver wraps the receiver of one call together with what is needed to
 // verify that storage outside its window is untouched.
@@ -189,6 +190,20 @@ func newReceiver(typ recvType, state, r, c int, upper bool, b *builder, init []f
 				rc.window[(i+p0)*W+j] = true
 			}
 			rc.v = mat.NewDense(R, W, rc.parent).ColView(j).(*mat.VecDense).SliceVec(p0, p0+n).(*mat.VecDense)
+		case stRowView:
+			// row i of an R×C parent, columns c0..c0+n; at least 4 sentinels follow
+			// the window (an overrun of a unit-increment kernel lands in them)
+			R := b.pad(2, 3)
+			i := b.rng.Intn(R - 1)
+			c0, c1 := b.pad(0, 2), b.pad(4, 6)
+			C := n + c0 + c1
+			rc.parent = b.sentinels(R * C)
+			rc.window = map[int]bool{}
+			for k := 0; k < n; k++ {
+				rc.parent[i*C+c0+k] = fill(k, 0)
+				rc.window[i*C+c0+k] = true
+			}
+			rc.v = mat.NewDense(R, C, rc.parent).Slice(0, R, c0, c0+n).(*mat.Dense).RowView(i).(*mat.VecDense)
 		}
 	case rSym, rTri:
 		n := r
